@@ -45,7 +45,7 @@ CLAIMED["C04"] = dict(
           "an swc AST enum or a binding-table enum is a panic; (3) every recursive call that passes a value obtained from a "
           "user-keyed table lookup lies only on cycles that pass a visited/memo mark; (4) every condition-driven loop writes a "
           "loop-carried dependency of its exit condition on every back-edge path. The rules found 3 panics, 1 hang (all repaired by "
-          "fix: commits) and 41 reachable sites that abort the process on witness inputs (known findings, each reproduced). Also: a successful result loads against the client runtime (C04.5 = the C01 constructor-table and regex-escaping rules)."),
+          "fix: commits) and 41 reachable sites that abort the process on witness inputs (known findings, each reproduced). Also: a successful result loads against the client runtime (C04.5 = the C01 constructor-table and regex-escaping rules). C04.3a also requires that the structure owning a visited set is not re-created inside the recursion it cuts."),
     note=("Trusted: rustc MIR/HIR, the call-graph over-approximation, the reviewed census and two exception tables. Not decided: "
           "promptness, diagnostics' line/column ranges lying inside the file, swc's own parser; dependency crates are not analysed. "
           "The census rule is deliberately conservative: a new panic/unwrap/index site fails until reviewed."),
@@ -61,7 +61,7 @@ CLAIMED["C06"] = dict(
           "specification) and compared with the set semantics on ALL assignments satisfying the path's pattern constraints; "
           "per-tag bit formulas and pair dispatch of SemTypeOps are checked over all abstract tag states; DNF conversion's "
           "push/pop pairing is checked structurally. With structural descent this covers all diagrams and all literal sets, "
-          "not the sampled ones a test reaches. Unknown constructs fail closed. Also: the tags handed to the pair iterator are disjoint from the saturated ones (representation invariant)."),
+          "not the sampled ones a test reaches. Unknown constructs fail closed. Also: the tags handed to the pair iterator are disjoint from the saturated ones (representation invariant). Also C06.5: the pairwise merge of the two tag-sorted tables filters every entry by its own tag."),
     note=("Trusted: rustc typed HIR; the interpretation table (Node semantics, sub_vec_* taken as set operations on the "
           "format-free fragment, structural equality implies semantic equality); lib/armalg.py evaluator. Not decided: "
           "sub_vec_* bodies, value-level membership of atoms (mapping/list atomic types)."),
@@ -77,7 +77,7 @@ CLAIMED["C05"] = dict(
           "touches that family's tables/accessors/constructors (this rule found the named-tuple memo bug, repaired by a fix: "
           "commit); co-inductive memo typestate of both emptiness entry points (lookup first, Undefined read as IsEmpty, "
           "in-progress mark dominates the recursive computation, same key updated afterwards); polarity of the BDD path walk "
-          "and the conjunction table of and_empty_status (truth table). Added later: in the recursive emptiness procedures no owned scratch value defined before a loop is written in the loop and handed to the recursive call without being re-created or restored per iteration (C05.6, with canary controls). Also C05.inv: the C06 arm rules are re-run, since a wrong difference flips assignability. Also C05.7: twin procedures of the engine agree on their abstract signatures."),
+          "and the conjunction table of and_empty_status (truth table). Added later: in the recursive emptiness procedures no owned scratch value defined before a loop is written in the loop and handed to the recursive call without being re-created or restored per iteration (C05.6, with canary controls). Also C05.inv: the C06 arm rules are re-run, since a wrong difference flips assignability. Also C05.7: twin procedures of the engine agree on their abstract signatures. Also C05.8: a set-operation result that is stored into the fragment handed to the recursive emptiness check is stored on every path (a move into a closure does not count)."),
     note=("Trusted: rustc typed HIR/MIR, the family naming scheme. Not decided: the emptiness procedures themselves "
           "(Frisch's Phi' on lists, exact-vs-open mapping difference, index signatures) - value-level correctness of all "
           "atom tables has no sound static argument in reach; relies on C06 for the set operations."),
@@ -92,7 +92,7 @@ CLAIMED["C07"] = dict(
           "top level (1 known finding: Exclude<number,1> -> Not<1> -> printer panic); the generated-name counter is only "
           "incremented, threaded by &mut from the frontend, and every helper definition returned is inserted with its result "
           "propagated; tag / proper-subtype / atom dispatch has no value-returning catch-all; maybe_not is always called with "
-          "`!allowed` of the enclosing arm and Not wraps exactly the negative atoms of a clause. Also C07.6: an atom fetched from one of the four atom tables only reaches materialisers that build that family's form (interprocedural flow through helper parameters). Also C07.7: twin materialisers agree."),
+          "`!allowed` of the enclosing arm and Not wraps exactly the negative atoms of a clause. Also C07.6: an atom fetched from one of the four atom tables only reaches materialisers that build that family's form (interprocedural flow through helper parameters). Also C07.7: twin materialisers agree. Also C07.8: a result built from one element of a sequence payload (first / last / literal index) in the materialiser, the IR or the printer is justified by a length test or by a use of the rest of the sequence (found and guards fix 6d011bc: multi-item template literals were materialised as their first item)."),
     note=("Trusted: rustc typed HIR/MIR. Not decided: that the materialised Runtype denotes the same value set as the semantic "
           "type (keyof / indexed-access projections, union-of-complements), which quantifies over all values."),
     design="DESIGN.md section 3, C07",
@@ -107,7 +107,7 @@ CLAIMED["C08"] = dict(
           "in ordered sets/maps (member and property order unobservable); every arm of the Printable*Key converters binds and "
           "uses every field of its variant and targets the same-named key variant (hoisting cannot merge types that differ); "
           "no hash()/hash256() of the runtime family reads metadata or feeds a type name to the writer, and every key iteration "
-          "in them is over a sorted copy. Added later: all_of merges on equal stored values only (C08.5); binary merge/selection functions over set-ordered members return a payload that reaches both operands or neither (C08.6); digest-context tables are not keyed by names (C08.4/C13.4)."),
+          "in them is over a sorted copy. Added later: all_of merges on equal stored values only (C08.5); binary merge/selection functions over set-ordered members return a payload that reaches both operands or neither (C08.6); digest-context tables are not keyed by names (C08.4/C13.4). Also C08.8 (= C01.8: a type parameter resolves to its innermost binding, so renaming / inlining generic wrappers is meaning-preserving)."),
     note=("Trusted: rustc MIR/HIR/ADT facts, swc AST. Not decided: equality of behaviour across spellings (which optimisation "
           "fires for which shape) - a relational, value-level statement."),
     design="DESIGN.md section 3, C08",
@@ -121,7 +121,7 @@ CLAIMED["C09"] = dict(
           "locals up by the original name; `export {A as B} from` looks A up in the other module and registers B; every kind "
           "of import that an export list can mention registers an export (this rule found the dropped default re-export, "
           "repaired by a fix: commit); the identity types of named types derive Eq/Ord/Hash over all fields incl. the file; "
-          "the lossy file-name mangling has no collision check (1 known finding, reproduced). Also C09.7: the file suffix of a disambiguated name is cut at a min-reduction over all same-named files. Also C09.8: the expression of another module's default export is handed on with the anchor of that export record. Also C09.9: the type-side and value-side twins of name resolution agree on their abstract signatures (reviewed differences tabled)."),
+          "the lossy file-name mangling has no collision check (1 known finding, reproduced). Also C09.7: the file suffix of a disambiguated name is cut at a min-reduction over all same-named files. Also C09.8: the expression of another module's default export is handed on with the anchor of that export record. Also C09.9: the type-side and value-side twins of name resolution agree on their abstract signatures (reviewed differences tabled). Also C09.10 (a lookup that follows `export *` re-enters the complete lookup of the target module) and C09.11 (in import('m').Q<Args> the arguments are lowered in the importing file and Q never visits the type-parameter stack - guards fix 009be55)."),
     note=("Trusted: rustc typed HIR and impl facts. Not decided: equality with the single-file result for all layouts "
           "(relational over programs); the walkers' resolution order; .d.ts/.tsx handling."),
     design="DESIGN.md section 3, C09",
@@ -136,7 +136,7 @@ CLAIMED["C13"] = dict(
           "ch/maj have their truth tables; schedule recurrence, T1/T2, state rotation, feed-forward, padding byte, threshold "
           "(> 56), big-endian length field and word load. Per class: every structural constructor field is read by hash256(), "
           "tags are pairwise distinct, every collection loop is length-prefixed, optional parts are tagged on both branches, "
-          "no digest reads metadata/names or iterates unsorted keys, cycle bookkeeping is paired. Added later: module constants are resolved before the arithmetic is compared; the in-progress table of the digest context is keyed by the referenced validator, never by a name (cycle-table-key). Also C13.5: hash()/hash256() read every constructor argument they read on the reviewed tree."),
+          "no digest reads metadata/names or iterates unsorted keys, cycle bookkeeping is paired. Added later: module constants are resolved before the arithmetic is compared; the in-progress table of the digest context is keyed by the referenced validator, never by a name (cycle-table-key). Also C13.5: hash()/hash256() read every constructor argument they read on the reviewed tree. Also C13.6: the stream position hash256 derives back-reference ids from advances by the length of every write; C13.7 (no fixed-size prefix)."),
     note=("Trusted: swc AST; the re-derivation of FIPS 180-4 in rules/c13.py; the 4-entry derived-field table. Not decided: "
           "collision-freedom beyond coverage+framing, buffer arithmetic across block boundaries (boundary-value behaviour), "
           "TextEncoder."),
@@ -165,7 +165,7 @@ CLAIMED["C02"] = dict(
           "every key of every schema object literal is a Draft 2020-12 keyword (plus discriminator) and every literal or "
           "field-typed `type` lies in the seven JSON Schema type names; prefixItems comes with minItems and pattern is a RegExp "
           "source (both were violated and repaired by fix: commits); every getRef(n) is preceded by the ensure-definition "
-          "sequence for n. Added later: index-signature schemas keep both key and value constraint (C02.5); the allOf merge takes every member's whole `required` list (C02.6). Also C02.7-C02.10 and the schema-array clause of C02.3: facade contexts are created per call; dictionaries keyed by type names have no prototype; no computed String.replace pattern; a lossy name sanitiser keeps a collision record; anyOf / prefixItems are never printed empty (2 known findings). Also C02.11: schema() reads every constructor argument it read on the reviewed tree."),
+          "sequence for n. Added later: index-signature schemas keep both key and value constraint (C02.5); the allOf merge takes every member's whole `required` list (C02.6). Also C02.7-C02.10 and the schema-array clause of C02.3: facade contexts are created per call; dictionaries keyed by type names have no prototype; no computed String.replace pattern; a lossy name sanitiser keeps a collision record; anyOf / prefixItems are never printed empty (2 known findings). Also C02.11: schema() reads every constructor argument it read on the reviewed tree. Also C02.12 (the schema table of a discriminated union narrows each variant to its key - guards fix efd9347: oneOf branches overlapped for multi-literal variants), C02.13 (no fixed-size prefix) and C02.14 (= C16.4: schema printing keeps no state on the validator instances)."),
     note=("Trusted: swc AST, the keyword list. Not decided: agreement on documents (required vs optional through "
           "removeNullUnionBranch, allOf merge, index signatures) - value-level over all documents."),
     design="DESIGN.md section 3, C02",
@@ -181,7 +181,7 @@ CLAIMED["C03"] = dict(
           "in any validate / parseAfterValidation / reportDecodeError or in the error helpers; explicit throws are the three "
           "reviewed post-validation ones; no assignment/delete/mutator call is rooted at an input-derived object; the two "
           "objectKeyOrder branches use the same membership test. The rules found three defect families (10 sites), all "
-          "repaired by fix: commits. Added later: results of a child's parseAfterValidation count as input-derived (opaque leaves and `any` hand the input back) and Object.assign/defineProperty/freeze count as writes to their first argument. Also C03.7: index-signature validators are applied to undeclared keys only. Also C03.8: parseAfterValidation() reads every constructor argument it read on the reviewed tree."),
+          "repaired by fix: commits. Added later: results of a child's parseAfterValidation count as input-derived (opaque leaves and `any` hand the input back) and Object.assign/defineProperty/freeze count as writes to their first argument. Also C03.7: index-signature validators are applied to undeclared keys only. Also C03.8: parseAfterValidation() reads every constructor argument it read on the reviewed tree. Also C03.9: for every value validate() accepts without consulting the wrapped member (null / undefined of an optional field) parseAfterValidation does not delegate to that member; C03.10 (no fixed-size prefix)."),
     note=("Trusted: swc AST, declared Record<..> annotations, the taint model (no inter-procedural flow beyond the listed "
           "helpers). Not decided: re-validation / idempotence of parsed output, leaf preservation through deepmerge."),
     design="DESIGN.md section 3, C03",
@@ -193,7 +193,7 @@ CLAIMED["C11"] = dict(
           "pass the method's own ctx identifier; contexts are built only by the facade; the flag is read only by the object "
           "class, in its no-index-signature branch, comparing Object.keys(input) with its own declared keys; a class that "
           "requires all of several children on the same input while forwarding the flag unchanged is reported (1 known "
-          "finding: intersections of named object types reject everything in strict mode). Added later: helpers that forward the ctx are checked at their call sites (fixpoint); the printer never drops the index signature of an object shape it rebuilds (C11.4 = C01.7)."),
+          "finding: intersections of named object types reject everything in strict mode). Added later: helpers that forward the ctx are checked at their call sites (fixpoint); the printer never drops the index signature of an object shape it rebuilds (C11.4 = C01.7). Also C11.5: the open-object inclusion test is called only from the engine and the frontend, never to simplify a printed type."),
     note="Trusted: swc AST. Not decided: the equivalence `strict accepts <=> default accepts and no undeclared key` itself.",
     design="DESIGN.md section 3, C11",
 )
@@ -205,7 +205,7 @@ CLAIMED["C12"] = dict(
           "reporter ends in an unconditional error (found: surplus tuple items - fixed; intersections of non-object types - "
           "known finding); pushPath/popPath pair up without an intervening return and the value reported under key k is "
           "input[k]; the union reporter restores ctx.path; error building/rendering never stringifies received values "
-          "outside try/catch. Also C12.5: re-basing an error (spread + new path) leaves its nested errors alone. Also C12.6: reportDecodeError() reads every constructor argument it read on the reviewed tree."),
+          "outside try/catch. Also C12.5: re-basing an error (spread + new path) leaves its nested errors alone. Also C12.6: reportDecodeError() reads every constructor argument it read on the reviewed tree. Also C12.7 (no fixed-size prefix)."),
     note="Trusted: swc AST; the atom vocabulary of rejection tests. Not decided: union filtering by depth, determinism of rendering.",
     design="DESIGN.md section 3, C12",
 )
@@ -219,7 +219,7 @@ CLAIMED["C01"] = dict(
           "constructor's arity and literal arguments inside the declared literal unions (1 known finding: "
           "TypeofRuntype(\"function\")); template-literal regexes are matched against the whole string (was violated; "
           "fixed); escape_regex covers all 15 syntax characters, backslash first; all 22 concrete runtime classes implement "
-          "all 8 interface methods; typed-array names agree with the 11 ECMAScript globals on both sides. Added later: the intersection smart constructor merges object members only when the stored values are equal (C01.6); the printer never takes a struct-like IR variant apart while ignoring one of its fields, e.g. the index signature of an object shape (C01.7). Also C01.8: scope stacks (pushed-and-popped Vec<(String, _)>) are searched innermost-first. Generic cross-checks: twin agreement (C01.9) and constructor-argument coverage of validate() (C01.10)."),
+          "all 8 interface methods; typed-array names agree with the 11 ECMAScript globals on both sides. Added later: the intersection smart constructor merges object members only when the stored values are equal (C01.6); the printer never takes a struct-like IR variant apart while ignoring one of its fields, e.g. the index signature of an object shape (C01.7). Also C01.8: scope stacks (pushed-and-popped Vec<(String, _)>) are searched innermost-first. Generic cross-checks: twin agreement (C01.9) and constructor-argument coverage of validate() (C01.10). Also C01.11 (no interface method reads a fixed-size prefix of an array-valued argument) and C01.12 (= C08.6: narrowing of a property declared by two intersection members is symmetric)."),
     note=("Trusted: rustc typed HIR, swc AST. The behavioural core of C01 (the validator accepts exactly the members of the "
           "type, for all programs and values) has no sound static argument in reach and is not decided."),
     design="DESIGN.md section 3, C01",
@@ -233,7 +233,7 @@ CLAIMED["C15"] = dict(
           "keyword arm of extract_ts_keyword_type that does not raise a diagnostic or a literal pattern of "
           "maybe_generate_ts_builtin (found `BigInt`; fixed); composite classes print the builtin spellings Array<>, Map<,>, "
           "Set<>, ...Array<>; property keys pass through a quoting step (was violated; fixed); collectDescribeRefs/describe "
-          "test activeRefs/visitedRefs before descending, pair add/delete, and assign definitions under a == null guard. Also C15.6: every return of describeTypeExpr depends on every field the method reads. Also C15.7: the children walk of the reference-counting pass does not depend on context state. Also C15.8: the describe methods read every constructor argument they read on the reviewed tree."),
+          "test activeRefs/visitedRefs before descending, pair add/delete, and assign definitions under a == null guard. Also C15.6: every return of describeTypeExpr depends on every field the method reads. Also C15.7: the children walk of the reference-counting pass does not depend on context state. Also C15.8: the describe methods read every constructor argument they read on the reviewed tree. Also C15.9: no describe method (or helper it reaches) reads a fixed-size prefix of an array-valued argument; C15.1 judges words glued to template holes as whole words."),
     note="Trusted: rustc typed HIR, swc AST. Not decided: equality (acceptance and hash256) of the second-generation validator.",
     design="DESIGN.md section 3, C15",
 )
